@@ -900,7 +900,7 @@ impl DdlExecutor {
                     .collect();
 
                 let idx_name = index_name(&col_names, relation.name());
-                self.create_unique_index(relation.object_id(), &idx_name, col_indices)?;
+                self.create_constraint_index(relation, &idx_name, col_indices)?;
 
                 Ok(format!(
                     "ADDED PRIMARY KEY CONSTRAINT ON COLUMNS: {}",
@@ -918,7 +918,7 @@ impl DdlExecutor {
                     .collect();
 
                 let idx_name = index_name(&col_names, relation.name());
-                self.create_unique_index(relation.object_id(), &idx_name, col_indices)?;
+                self.create_constraint_index(relation, &idx_name, col_indices)?;
 
                 Ok(format!(
                     "ADDED UNIQUE CONSTRAINT ON COLUMNS: {}",
@@ -947,6 +947,35 @@ impl DdlExecutor {
                 ))
             }
         }
+    }
+
+    /// Creates the index backing a PRIMARY KEY / UNIQUE constraint of `relation`.
+    ///
+    /// `create_unique_index` works on its own copy of the table's catalog entry, so the changes made to
+    /// `relation` so far (constraint list, NOT NULL flags of key columns) are stored first, and `relation`
+    /// is reloaded afterwards: the caller then holds (and may store again) a schema that knows the index.
+    fn create_constraint_index(
+        &mut self,
+        relation: &mut Relation,
+        index_name: &str,
+        indexed_column_ids: &[usize],
+    ) -> RuntimeResult<ObjectId> {
+        let table_id = relation.object_id();
+        let tree_builder = self.ctx.tree_builder();
+        self.ctx.catalog().update_relation(
+            table_id,
+            None,
+            Some(relation.schema().clone()),
+            None,
+            &tree_builder,
+            self.ctx.snapshot(),
+        )?;
+        let index_id = self.create_unique_index(table_id, index_name, indexed_column_ids)?;
+        *relation = self
+            .ctx
+            .catalog()
+            .get_relation(table_id, &tree_builder, self.ctx.snapshot())?;
+        Ok(index_id)
     }
 
     fn create_unique_index(
